@@ -215,9 +215,16 @@ def run_case(case, ctx):
             else:
                 d = state_diff(state(e), state(fresh))
                 stale = [x for x in d if "stale attribute" in x]
+                # only public fitted attributes (name_) are judged: private ones (_n_init, _algorithm, ...) are
+                # scikit-learn's own bookkeeping of the parent KMeans
+                private = [x for x in stale if x.split(" ")[0].rsplit(".", 1)[-1].startswith("_")]
+                if private:
+                    ctx.excluded("private attribute of the parent class left by the previous configuration")
+                stale = [x for x in stale if x not in private]
                 if stale:
-                    ctx.excluded("attribute of the previous configuration left behind without effect on outputs: "
-                                 "%s %s" % (spec.name, stale[0][:60]))
+                    ctx.violation(K + "refit/state-differs/stale-attribute-after-set_params",
+                                  "after fit A, set_params(%s=...), fit B the object still carries %s" % (
+                                      key, "; ".join(stale[:2])), cfg=cfg)
         # ---- determinism under the same global seed
         cfg = {"class": spec.name, "variant": vi, "sub": sub}
         try:
